@@ -21,7 +21,7 @@ func scenPrints(out *scenOut, r *rng, thorough bool) {
 		printThenWhileFrameHeld(out, next)
 	}
 	printContent(out)
-	// printThenAltThenQuit(out)  // (enabled together with the enterAltScreen repair)
+	printThenAltThenQuit(out)
 }
 
 // printThenWhileFrameHeld: the ticker goroutine is inside the output writer with the frame that
